@@ -10,7 +10,7 @@
       liquid2/builtin/expressions.py
         FilteredExpression.evaluate                            :604-609
         TernaryFilteredExpression.evaluate                     :729-744
-        RangeLiteral._make_range                               :278-293
+        RangeLiteral._make_range                               :278-293 (as of /repo 65d399b)
       children()/expressions()/render_to_output of
         OutputNode, EchoNode, AssignNode, IfNode (+ ConditionalBlockNode),
         ForNode, LiquidNode, BlockNode, CommentNode, ContentNode, TranslateNode.
@@ -312,14 +312,12 @@ Definition eval_texpr (e : texpr) : rout :=
       r_seq first (apply_filters pos false None tfs)
   end.
 
-(** [RangeLiteral._make_range(1, stop)]: number of iterations. *)
-Definition range_len (v : value) : res nat :=
+(** [RangeLiteral._make_range(1, stop)]: number of iterations. A bound that
+    [to_int] rejects (ValueError, TypeError, OverflowError) counts as 0. *)
+Definition range_len (v : value) : nat :=
   match to_int pyint v with
-  | Ok z => Ok (Z.to_nat z)
-  | PyExc ValueError => Ok 0%nat
-  | LErr e q => LErr e q
-  | PyExc k => PyExc k
-  | OutOfFuel => OutOfFuel
+  | Ok z => Z.to_nat z
+  | _ => O
   end.
 
 Fixpoint repeat_rout (n : nat) (r : rout) : rout :=
@@ -340,9 +338,8 @@ Fixpoint render_node (n : node) {struct n} : rout :=
            end
   | NFor _ _ s body default =>
       match range_len (eval_prim d s) with
-      | Ok O => render_opt default
-      | Ok k => repeat_rout k (render_block body)
-      | e => ([], res_unit e)
+      | O => render_opt default
+      | k => repeat_rout k (render_block body)
       end
   | NTranslate pos args sing plural =>
       match tr_call pyint d args sing plural with
